@@ -59,7 +59,8 @@ def gen_cases(rng, n, tier):
                     for tx in sorted(rng.sample(range(1, 11), rng.randint(1, 3))):
                         av.append(dict(l=a, r=l, tx=tx, op=rng.choice([0, 0, 2])))
         notes = [dict(id=j, article_id=rng.choice([None, 1, 2, 3])) for j in range(1, rng.randint(1, 4))]
-        out.append(dict(strategy=strategy, art=art, tag=tag, lab=lab, av=av, notes=notes))
+        out.append(dict(strategy=strategy, art=art, tag=tag, lab=lab, av=av, notes=notes,
+                        end_unfilled=(strategy == 'validity' and rng.random() < 0.3)))
     # histories: the version tables are what the package itself wrote
     for i in range(max(20, n // 4)):
         cfg = dict(shape='blog', strategy='subquery' if i % 2 else 'validity')
@@ -171,7 +172,9 @@ def _observe(env, case):
     for rows in (case['art'], case['tag'], case['lab']):
         for r in rows:
             r['end'] = None
-        if validity:
+        if validity and not case.get('end_unfilled'):
+            # end_unfilled: rows written before the validity strategy was switched on (or imported) and not yet treated
+            # by update_end_tx_column: the relationships read the rows, not the derived end column
             _fill_end(rows)
 
     def ins(tbl, rows, cols):
